@@ -42,6 +42,10 @@ type AnchoredLiteralInfo struct {
 	// WildcardMin is 0 for .* or 1 for .+
 	WildcardMin int
 
+	// WildcardNoNL is true when the wildcard is `.` without the s flag, which
+	// cannot consume a newline.
+	WildcardNoNL bool
+
 	// MinLength is the minimum input length for a possible match.
 	// Calculated as: len(Prefix) + WildcardMin + CharClassMin + len(Suffix)
 	MinLength int
@@ -102,6 +106,7 @@ func DetectAnchoredLiteral(re *syntax.Regexp) *AnchoredLiteralInfo {
 	var prefix []byte
 	var wildcardIdx = -1
 	var wildcardMin int
+	var wildcardNoNL bool
 	var charClassTable *[256]bool
 	var charClassMin int
 
@@ -117,6 +122,7 @@ func DetectAnchoredLiteral(re *syntax.Regexp) *AnchoredLiteralInfo {
 			}
 			wildcardIdx = i
 			wildcardMin = getWildcardMin(sub)
+			wildcardNoNL = sub.Sub[0].Op == syntax.OpAnyCharNotNL
 		} else if wildcardIdx == -1 {
 			// Before wildcard - must be literal (prefix)
 			lit := extractLiteral(sub)
@@ -162,18 +168,21 @@ func DetectAnchoredLiteral(re *syntax.Regexp) *AnchoredLiteralInfo {
 		CharClassTable: charClassTable,
 		CharClassMin:   charClassMin,
 		WildcardMin:    wildcardMin,
+		WildcardNoNL:   wildcardNoNL,
 		MinLength:      minLen,
 	}
 }
 
 // isStartAnchor returns true if re is a start anchor (^ or \A).
 func isStartAnchor(re *syntax.Regexp) bool {
-	return re.Op == syntax.OpBeginText || re.Op == syntax.OpBeginLine
+	// Only \A / non-multiline ^: (?m)^ also matches after every newline.
+	return re.Op == syntax.OpBeginText
 }
 
 // isEndAnchor returns true if re is an end anchor ($ or \z).
 func isEndAnchor(re *syntax.Regexp) bool {
-	return re.Op == syntax.OpEndText || re.Op == syntax.OpEndLine
+	// Only \z / non-multiline $: (?m)$ also matches before every newline.
+	return re.Op == syntax.OpEndText
 }
 
 // isGreedyWildcard returns true if re is .* or .+ (greedy).
@@ -323,7 +332,10 @@ func MatchAnchoredLiteral(input []byte, info *AnchoredLiteralInfo) bool {
 	if info.CharClassTable == nil {
 		// Still need to verify wildcard minimum
 		middleLen := suffixStart - len(info.Prefix)
-		return middleLen >= info.WildcardMin
+		if middleLen < info.WildcardMin {
+			return false
+		}
+		return !info.WildcardNoNL || !containsNewline(input[len(info.Prefix):suffixStart])
 	}
 
 	// O(k) charclass bridge check
@@ -348,5 +360,19 @@ func MatchAnchoredLiteral(input []byte, info *AnchoredLiteralInfo) bool {
 		}
 	}
 
-	return found >= info.CharClassMin
+	if found < info.CharClassMin {
+		return false
+	}
+	// Everything before the trailing class run is consumed by the wildcard.
+	return !info.WildcardNoNL || !containsNewline(input[len(info.Prefix):charClassEnd-found])
+}
+
+// containsNewline reports whether b contains a '\n' byte.
+func containsNewline(b []byte) bool {
+	for _, c := range b {
+		if c == '\n' {
+			return true
+		}
+	}
+	return false
 }
